@@ -27,6 +27,11 @@ notification, or a `send k p` of the script that was left parked (`ss parksend`)
 inductive Wait where
   | task (k : Nat)
   | send (k p : Nat)
+  /-- a handler task blocked in `pending.accept().await` that will `send p` right after (`ss parkacceptsend`) -/
+  | acceptSend (k p : Nat)
+  /-- the send of such a task, parked in its turn; the task owns the (only) handle and hands it to the
+  script when it is done -/
+  | sendKeep (k p : Nat)
   deriving DecidableEq
 
 structure SubSt where
@@ -54,8 +59,9 @@ def parseSid (w : String) : Option Nat :=
 partial def decodeCode (k : Nat) : Text :=
   if k == 0 then []
   else
-    let rec tz (n c : Nat) : Nat × Nat := if n % 2 == 0 && n != 0 then tz (n / 2) (c + 1) else (c, n)
-    let (c, odd) := tz k 0
+    -- lowest set bit (code points go up to 0x10FFFF: no bit-by-bit loop)
+    let c := (k &&& (k ^^^ (k - 1))).log2
+    let odd := k >>> c
     c :: decodeCode (odd / 2)
 
 def keyRepr (k : Nat) : String :=
@@ -94,19 +100,37 @@ send that completes (ok / err) also lets go of the handle its blocked `send` cal
 Returns the new parking order and the completions `k:p:result`. -/
 def settlePass (st : State) (waiting : List Wait) : State × List Wait × List String :=
   let fresh := (List.range st.subs.length).filter (fun k => !(waiting.contains (.task k)))
-  let order := waiting ++ fresh.map Wait.task
-  order.foldl
-    (fun (acc : State × List Wait × List String) w =>
+  -- already parked items keep their place; a task that parks only now queues up behind them
+  let order := waiting.map (fun w => (w, true)) ++ fresh.map (fun k => (Wait.task k, false))
+  -- acc = (state, still parked in their old order, newly parked (they queue up behind), completions)
+  let r := order.foldl
+    (fun (acc : State × List Wait × List Wait × List String) (wo : Wait × Bool) =>
+      let (st, kept, late, done) := acc
+      let w := wo.1
       match w with
       | .task k =>
-        (match step acc.1 (.taskStep k) with
-          | (s', .blocked) => (s', acc.2.1 ++ [w], acc.2.2)
-          | (s', _) => (s', acc.2.1, acc.2.2))
+        (match step st (.taskStep k) with
+          | (s', .blocked) => if wo.2 then (s', kept ++ [w], late, done) else (s', kept, late ++ [w], done)
+          | (s', _) => (s', kept, late, done))
       | .send k p =>
-        (match step acc.1 (.sendResume k p) with
-          | (s', .blocked) => (s', acc.2.1 ++ [w], acc.2.2)
-          | (s', o) => ((step s' (.dropSink k)).1, acc.2.1, acc.2.2 ++ [s!"{k}:{p}:{outRepr o}"])))
-    (st, [], [])
+        (match step st (.sendResume k p) with
+          | (s', .blocked) => (s', kept ++ [w], late, done)
+          | (s', o) => ((step s' (.dropSink k)).1, kept, late, done ++ [s!"{k}:{p}:{outRepr o}"]))
+      | .sendKeep k p =>
+        (match step st (.sendResume k p) with
+          | (s', .blocked) => (s', kept ++ [w], late, done)
+          | (s', o) => (s', kept, late, done ++ [s!"{k}:{p}:{outRepr o}"]))
+      | .acceptSend k p =>
+        (match step st (.accept k) with
+          | (s', .blocked) => (s', kept ++ [w], late, done)
+          | (s', .ok) =>
+            -- accept() has returned (its response is queued): the task sends at once
+            (match step s' (.send k p) with
+              | (s'', .blocked) => (s'', kept, late ++ [.sendKeep k p], done ++ [s!"{k}:a:ok"])
+              | (s'', o) => (s'', kept, late, done ++ [s!"{k}:a:ok", s!"{k}:{p}:{outRepr o}"]))
+          | (s', o) => (s', kept, late, done ++ [s!"{k}:a:{outRepr o}"])))
+    (st, [], [], [])
+  (r.1, r.2.1 ++ r.2.2.1, r.2.2.2)
 
 /-- writer steps on connection `c` until nothing moves (fuel = queue length + 1) -/
 def drainConn (st : State) (c : Nat) : Nat → State × List Frame
@@ -175,7 +199,8 @@ def framesRepr (fs : List Frame) : String :=
 def lineRepr (out : String) (st : State) (fss : List (List Frame)) (done : List String := []) : String :=
   let cs := (List.range fss.length).zip fss |>.map (fun p => s!"c{p.1}={framesRepr p.2}")
   let bits := String.join (st.conns.map (fun cn => if cn.isOpen then "1" else "0"))
-  let dn := if done.isEmpty then [] else ["done=" ++ String.intercalate "," done]
+  -- completions of one line are shown sorted (their relative timing within the settling is not observable)
+  let dn := if done.isEmpty then [] else ["done=" ++ String.intercalate "," (done.mergeSort (fun a b => a ≤ b))]
   String.intercalate ";" ([out] ++ cs ++ [s!"open={bits}"] ++ dn)
 
 def kv (key : String) (w : String) : Option Nat :=
@@ -207,7 +232,9 @@ blocked (parked) send calls -/
 def scriptHandles (s : SubSt) (k : Nat) : Nat :=
   match s.st.subs[k]? with
   | none => 0
-  | some sb => sb.clones - (s.waiting.filter (fun w => match w with | .send k' _ => k' == k | _ => false)).length
+  | some sb =>
+    sb.clones - (s.waiting.filter
+      (fun w => match w with | .send k' _ => k' == k | .sendKeep k' _ => k' == k | _ => false)).length
 
 /-- an operation on the script's newest handle of `k`: `nosink` if every live handle is held by a
 parked send -/
@@ -230,6 +257,26 @@ def runParkSend (s : SubSt) (k p : Nat) : SubSt × String :=
     let (st2, fss, w, d) := settle s.eager st1 (s.waiting ++ [.send k p])
     ({ s with st := st2, waiting := w }, lineRepr "parked" st2 fss d)
   | _ => runOp s (.send k p)
+
+/-- the pending sink of `k` has been moved into a handler task blocked in `accept()` -/
+def acceptParked (s : SubSt) (k : Nat) : Bool :=
+  s.waiting.any (fun w => match w with | .acceptSend k' _ => k' == k | _ => false)
+
+/-- an answer without a model step (the script cannot perform the operation) -/
+def answer (s : SubSt) (out : String) : SubSt × String :=
+  let (st2, fss, w, d) := settle s.eager s.st s.waiting
+  ({ s with st := st2, waiting := w }, lineRepr out st2 fss d)
+
+/-- `ss parkacceptsend k p how`: a handler task that awaits `pending.accept()` — parked while the
+queue is full — and sends `p` as soon as accept has returned -/
+def runParkAcceptSend (s : SubSt) (k p : Nat) : SubSt × String :=
+  match s.st.subs[k]? with
+  | none => answer s "bad"
+  | some sb =>
+    if sb.phase != .pending || acceptParked s k then answer s "bad"
+    else
+      let (st2, fss, w, d) := settle s.eager s.st (s.waiting ++ [.acceptSend k p])
+      ({ s with st := st2, waiting := w }, lineRepr "started" st2 fss d)
 
 /-- `ss ident k`: what the pending sink / the sink says about itself -/
 def identRepr (st : State) (k : Nat) : String :=
@@ -273,10 +320,19 @@ def subsVerb (s : SubSt) (ws : List String) : Option (SubSt × String) :=
           | some (c, m, rid), some sid => runOp s (.subscribe c m rid sid)
           | _, _ => (s, "bad-op"))
       | ["accept", k] =>
-        (match k.toNat? with | some k => runOp s (.accept k) | none => (s, "bad-op"))
+        (match k.toNat? with
+          | some k => if acceptParked s k then answer s "bad" else runOp s (.accept k)
+          | none => (s, "bad-op"))
+      | ["parkacceptsend", k, p, how] =>
+        (match k.toNat?, p.toNat? with
+          | some k, some p => if sendHow how then runParkAcceptSend s k p else (s, "bad-op")
+          | _, _ => (s, "bad-op"))
       | ["acceptsend", k, p, how] =>
         (match k.toNat?, p.toNat? with
-          | some k, some p => if sendHow how then runOps s [.accept k, .send k p] "+" else (s, "bad-op")
+          | some k, some p =>
+            if !sendHow how then (s, "bad-op")
+            else if acceptParked s k then answer s "bad+nosink"
+            else runOps s [.accept k, .send k p] "+"
           | _, _ => (s, "bad-op"))
       | ["burst", k, p, n, how] =>
         (match nat3 k p n with
@@ -287,10 +343,12 @@ def subsVerb (s : SubSt) (ws : List String) : Option (SubSt × String) :=
           | none => (s, "bad-op"))
       | ["reject", k, code] =>
         (match k.toNat?, parseInt code with
-          | some k, some code => runOp s (.reject k code)
+          | some k, some code => if acceptParked s k then answer s "bad" else runOp s (.reject k code)
           | _, _ => (s, "bad-op"))
       | ["droppending", k] =>
-        (match k.toNat? with | some k => runOp s (.dropPending k) | none => (s, "bad-op"))
+        (match k.toNat? with
+          | some k => if acceptParked s k then answer s "bad" else runOp s (.dropPending k)
+          | none => (s, "bad-op"))
       | ["send", k, p, how] =>
         (match k.toNat?, p.toNat? with
           | some k, some p => if sendHow how then withHandle s k (fun s => runOp s (.send k p)) else (s, "bad-op")
@@ -307,7 +365,8 @@ def subsVerb (s : SubSt) (ws : List String) : Option (SubSt × String) :=
       | ["ident", k] =>
         (match k.toNat? with
           | some k =>
-            withHandle s k (fun s =>
+            if acceptParked s k then answer s "nosink"
+            else withHandle s k (fun s =>
               let (st2, fss, w, d) := settle s.eager s.st s.waiting
               ({ s with st := st2, waiting := w }, lineRepr (identRepr s.st k) st2 fss d))
           | none => (s, "bad-op"))
